@@ -531,7 +531,67 @@ var forbiddenTargets = []string{"a", "a.b", "m.b", "$a.b", "($a)", "1", "f()", "
 
 func init() { c07.Run = runC07 }
 
+// NoMapCase: a runner that was never given a data map (or was given nil, or only single entries): locals bound by one
+// evaluation are read by later evaluations of the same runner, and long lists see them element after element.
+type NoMapCase struct {
+	Mode int   `json:"mode"` // 0 never set, 1 SetThis(nil), 2 SetThisValue only, 3 SetThis(nil) then SetThisValue
+	X    int64 `json:"x"`
+	N    int   `json:"n"` // length of the long list
+}
+
+var c07NoMap = core.Mon(c07, "runner-without-map", func(w *core.W, c *NoMapCase) {
+	w.Count("runner_without_map_cases")
+	w.Nontrivial(fmt.Sprintf("nomap|%d|%d|%d", c.Mode, c.X, c.N))
+	r := formula.NewRunner()
+	switch c.Mode {
+	case 1:
+		r.SetThis(nil)
+	case 2:
+		r.SetThisValue("seed", 1)
+	case 3:
+		r.SetThis(nil)
+		r.SetThisValue("seed", 1)
+	}
+	x := c.X
+	long := "[$c = " + fmt.Sprint(x) + strings.Repeat(", $c", c.N-2) + ", $c = $c + 1]"
+	wantLong := "[" + fmt.Sprint(x) + strings.Repeat(" "+fmt.Sprint(x), c.N-2) + " " + fmt.Sprint(x+1) + "]"
+	steps := []struct{ src, want string }{
+		{fmt.Sprintf("$a = %d, $a + 1", x), fmt.Sprint(x + 1)},
+		{"$a", fmt.Sprint(x)},
+		{"[$a, $b = $a * 2, $b]", fmt.Sprintf("[%d %d %d]", x, 2*x, 2*x)},
+		{"$b - $a", fmt.Sprint(x)},
+		{long, wantLong},
+		{"[$c, $a, $b]", fmt.Sprintf("[%d %d %d]", x+1, x, 2*x)},
+		{"$a = $a + $c, [$a, $zz]", fmt.Sprintf("[%d <nil>]", 2*x+1)},
+		{"$a", fmt.Sprint(2*x + 1)},
+	}
+	for i, st := range steps {
+		sc, err := hostParse([]byte(st.src), true)
+		if err != nil {
+			w.Violation("runner-without-map", "C07/unparsable", c, "parses", err.Error(), clipS(st.src, 120))
+			return
+		}
+		var v interface{}
+		var rerr error
+		w.Eval(1)
+		panicked, pv := core.Call(func() { v, rerr = r.Resolve(context.Background(), sc.Expression) })
+		if got := plainNums(v); panicked || rerr != nil || got != st.want {
+			w.Violation("runner-without-map", "C07/local-lost-between-evaluations", c, clipS(st.want, 200), clipS(fmt.Sprint(got, " ", rerr, pv), 200),
+				fmt.Sprintf("evaluation %d (%s) on a runner without a caller-supplied data map", i+1, clipS(st.src, 120)))
+			return
+		}
+	}
+})
+
 func runC07(w *core.W) {
+	ni := 0
+	for mode := 0; mode < 4; mode++ {
+		for _, n := range []int{3, 17, 127, 128, 129, 256, 1000, 4097} {
+			if ni++; w.Mine(ni) {
+				c07NoMap(w, &NoMapCase{Mode: mode, X: int64(3 + ni), N: n})
+			}
+		}
+	}
 	r := w.RNG("store")
 	g := defaultSubGen(r)
 	for i, n := 0, w.Pick(25000, 400000); i < n; i++ {
